@@ -690,6 +690,8 @@ class PoolingCorr(Corr):
 class C13(Prop):
     id = "C13"
     props_file = "Props/C13.v"
+    # redundant tie (core.gen_tie): these functions, translated from the source on every run, equal the hand model for all inputs
+    gen_tie_theorems = ['GenTie__filter_objects', 'GenTie_add_frame_result', 'GenTie_add_frame_result_outside', 'GenTie_get_scene_result', 'GenTie_get_scene_result_outside', 'GenTie_get_ground_truth_now_frame', 'GenTie_get_ground_truth_now_frame_outside']
     extra_props_files = ["Props/C13Concrete.v"]
     design_ref = "DESIGN.md section 4, C13"
     technique = "Rocq proof (refinement of a manager state machine to a history-independent spec by induction over call sequences; permutation/sorting lemmas for pooling); in-Coq replay of call histories against the real manager"
